@@ -672,6 +672,18 @@ def from_logging(t):
                for x in sp.get("x", []))
 
 
+
+# a body that raises an alarm as compiled is judged again on its work view (effects.view_fallback)
+rule_r2 = effects.view_fallback(rule_r2)
+rule_r3 = effects.view_fallback(rule_r3)
+rule_r4 = effects.view_fallback(rule_r4)
+rule_r5 = effects.view_fallback(rule_r5)
+rule_r6 = effects.view_fallback(rule_r6)
+rule_r7 = effects.view_fallback(rule_r7)
+rule_r8 = effects.view_fallback(rule_r8)
+rule_r9 = effects.view_fallback(rule_r9)
+rule_r10 = effects.view_fallback(rule_r10)
+
 def run(ctx):
     facts = ctx.facts("default")
     fam = ctx.facts("family")
